@@ -28,25 +28,25 @@ type LaneFn = fn(&Ctx) -> Report;
 
 pub fn lanes_of(id: &str) -> Vec<(&'static str, LaneFn)> {
     match id {
-        "C01" => vec![("routing", c01::routing), ("hostile_ids", c01::hostile_ids), ("abandoned", c01::abandoned), ("routing_threads", c01::routing_threads), ("nested_searches", c01::nested_searches), ("stale_requests", c01::stale_requests), ("starttls_strays", c01::starttls_strays)],
+        "C01" => vec![("routing", c01::routing), ("hostile_ids", c01::hostile_ids), ("abandoned", c01::abandoned), ("routing_threads", c01::routing_threads), ("nested_searches", c01::nested_searches), ("stale_requests", c01::stale_requests), ("starttls_strays", c01::starttls_strays), ("dropped_neighbour", c01::dropped_neighbour)],
         "C02" => vec![("requests", c02::requests), ("modifiers", c02::modifiers), ("composed_requests", c02::composed_requests), ("cloned_handles", c02::cloned_handles)],
         "C03" => vec![("responses", c03::responses), ("helpers", c03::helpers), ("paged_results", c03::paged_results), ("starttls_results", c03::starttls_results), ("odd_result_codes", c03::odd_result_codes)],
-        "C04" => vec![("cuts", c04::cuts), ("write_errors", c04::write_errors), ("handle_drops", c04::handle_drops), ("real_transports", c04::real_transports), ("paged_connection_loss", c16::paging_faults), ("malformed_results", c04::malformed_results), ("late_readers", c04::late_readers), ("unbind_under_backpressure", c04::unbind_under_backpressure)],
+        "C04" => vec![("cuts", c04::cuts), ("write_errors", c04::write_errors), ("handle_drops", c04::handle_drops), ("real_transports", c04::real_transports), ("paged_connection_loss", c16::paging_faults), ("malformed_results", c04::malformed_results), ("late_readers", c04::late_readers), ("unbind_under_backpressure", c04::unbind_under_backpressure), ("abandoned_streams", c04::abandoned_streams)],
         "C05" => vec![("wrap", c05::wrap), ("threads", c05::threads), ("boundaries", c05::boundaries)],
-        "C06" => vec![("decoder_prefixes", c06::decoder_prefixes), ("partitions", c06::partitions), ("exhaustive_splits", c06::exhaustive_splits), ("bursts", c06::bursts)],
+        "C06" => vec![("decoder_prefixes", c06::decoder_prefixes), ("partitions", c06::partitions), ("exhaustive_splits", c06::exhaustive_splits), ("bursts", c06::bursts), ("given_up_neighbour", c06::given_up_neighbour)],
         "C07" => vec![("trees", c07::trees), ("integers", c07::integers), ("nonminimal", c07::nonminimal), ("typed_trees", c07::typed_trees)],
         "C08" => vec![("generated", c08::generated), ("exhaustive", c08::exhaustive), ("mutated", c08::mutated), ("rejection", c08::rejection_classes)],
         "C09" => vec![("exhaustive_short", c09::exhaustive_short), ("exhaustive_meta", c09::exhaustive_meta), ("random", c09::random)],
-        "C10" => vec![("streams", c10::streams), ("search_collect", c10::search_collect), ("sync_streams", c10::sync_streams), ("paged_early_finish", c10::paged_early_finish)],
-        "C11" => vec![("decoder", c11::decoder), ("driver", c11::driver), ("stack", c11::stack), ("starttls_garbage", c11::starttls_garbage)],
+        "C10" => vec![("streams", c10::streams), ("search_collect", c10::search_collect), ("sync_streams", c10::sync_streams), ("paged_early_finish", c10::paged_early_finish), ("dropped_neighbour", c10::dropped_neighbour)],
+        "C11" => vec![("decoder", c11::decoder), ("driver", c11::driver), ("stack", c11::stack), ("starttls_garbage", c11::starttls_garbage), ("idle_connection", c11::idle_connection)],
         "C12" => vec![("timeouts", c12::timeouts), ("stalled_driver", c12::stalled_driver)],
-        "C13" => vec![("histories", c13::histories), ("long_histories", c13::long_histories), ("tls_connections", c13::tls_connections)],
+        "C13" => vec![("histories", c13::histories), ("long_histories", c13::long_histories), ("tls_connections", c13::tls_connections), ("given_up_searches", c13::given_up_searches)],
         "C14" => vec![("differential", c14::differential)],
         "C15" => vec![("random", c15::random), ("patterns", c15::patterns), ("through_connection", c15::through_connection)],
         "C16" => vec![("paging", c16::paging)],
         "C17" => vec![("matrix", c17::matrix_lane)],
         "C18" => vec![("table", c18::table)],
-        "C19" => vec![("requests", c19::requests), ("responses", c19::responses), ("envelope", c19::envelope), ("attached_controls", c19::attached_controls)],
+        "C19" => vec![("requests", c19::requests), ("responses", c19::responses), ("envelope", c19::envelope), ("attached_controls", c19::attached_controls), ("exops_through_connection", c19::exops_through_connection)],
         "C20" => vec![("random", c20::random), ("errors", c20::errors)],
         _ => vec![],
     }
